@@ -111,4 +111,12 @@ CellOf(c) == CASE c = "none" -> <<>>
 Inst(f, k) == LET F == Frag(f)
               IN [F EXCEPT !.q = [i \in 1..Len(F.q) |-> 8 * k + i],
                            !.pos = [i \in 1..Len(F.pos) |-> <<F.pos[i][1], F.pos[i][2] + (k % 2) * 3, F.pos[i][3] + (k \div 2) * 3>>]]
+
+\* a parameterised chain of n atoms (three elements in turn), bonds between neighbours (every third listed backwards, two
+\* bond types), angles on consecutive triples; instance k has its own ids and its own row of positions
+BigChain(n, k) ==
+  LET B == Base("BC", <<"C","N","O">>, [i \in 1..n |-> (i - 1) % 3], [i \in 1..n |-> <<i, 20 + 2 * k, 7>>], [i \in 1..n |-> k], TRUE)
+  IN [B EXCEPT !.q = [i \in 1..n |-> 200 * (k + 1) + i],
+               !.bond = Terms("BC", "b", [i \in 1..(n - 1) |-> IF i % 3 = 0 THEN <<i, i - 1>> ELSE <<i - 1, i>>], [i \in 1..(n - 1) |-> i % 2], 2, TRUE),
+               !.angle = Terms("BC", "n", [i \in 1..(n - 2) |-> <<i - 1, i, i + 1>>], [i \in 1..(n - 2) |-> 0], 1, TRUE)]
 =============================================================================
